@@ -169,6 +169,11 @@ fn gen(seed: u64, family: &str, tier: Tier) -> Case {
     let mut r = Rng::new(seed ^ fnv64("C12"));
     let mut w = World::gen_graph(&mut r, &graph_params(tier));
     gen_traversal(&mut r, &mut w);
+    let energy = !family.starts_with("yens-known") && r.chance(0.15);
+    if energy {
+        // vehicles: a query must name one ("unknown vehicle names" are part of the property)
+        gen_energy(&mut r, &mut w);
+    }
     gen_extras(&mut r, &mut w);
     gen_algorithm(&mut r, &mut w, true, true);
     gen_termination(&mut r, &mut w);
@@ -200,6 +205,24 @@ fn gen(seed: u64, family: &str, tier: Tier) -> Case {
     let mut kinds: Vec<&'static str> = vec![];
     for qid in 0..nq {
         let (mut q, _) = gen_query(&mut r, &w, &pc, qid, true);
+        if energy && q.is_object() {
+            if let crate::world::Traversal::Energy { vehicles, .. } = &w.traversal {
+                match r.below(10) {
+                    0 => {}
+                    1 => q["model_name"] = json!("no_such_vehicle"),
+                    2 => q["model_name"] = json!(17),
+                    _ => q["model_name"] = json!(r.pick(vehicles).name),
+                }
+                if r.chance(0.3) {
+                    q["starting_soc_percent"] = json!(*r.pick(&[50.0, 0.0, 100.0, -1.0, 1000.0, 1e300]));
+                }
+                if let Some(m) = q.as_object_mut() {
+                    m.remove("weights");
+                    m.remove("vehicle_rates");
+                    m.remove("state_features");
+                }
+            }
+        }
         if w.edge_oriented && q.is_object() {
             let ne = w.ne().max(1) as u64;
             q["origin_edge"] = json!(r.below(ne));
@@ -352,7 +375,16 @@ fn judge(case: &Case, obs: &Obs) -> (Vec<Violation>, BTreeMap<String, u64>, bool
     // isolation: the batch as a whole equals the union of the isolated runs
     if let Some(refs) = obs.reference.get(0) {
         if refs.iter().all(|x| x.is_some()) {
-            let expected: Vec<Value> = refs.iter().flat_map(|x| x.clone().unwrap()).collect();
+            // rates of 0 / -1 / 1e300 make the cost arithmetic leave the finite range, where the result depends on
+            // the order of the factors, i.e. on the state-vector slot order, i.e. on the hash seed of the
+            // application instance - not on the batch. Such queries are still checked for an answer above, but
+            // are not compared with another instance's answer.
+            let kinds: Vec<&str> = case.params.get("kinds").and_then(|k| k.as_array()).map(|a| a.iter().map(|k| k.as_str().unwrap_or("")).collect()).unwrap_or_default();
+            let skip: Vec<u64> = batch.iter().enumerate().filter(|(i, _)| kinds.get(*i) == Some(&"degenerate-rates")).filter_map(|(_, q)| q.get("_qid").and_then(|x| x.as_u64())).collect();
+            let keep = |r: &Value| !r.get("request").and_then(|q| q.get("_qid")).and_then(|x| x.as_u64()).map_or(false, |q| skip.contains(&q));
+            bump("isolation_skipped_degenerate_rates", skip.len() as u64);
+            let expected: Vec<Value> = refs.iter().flat_map(|x| x.clone().unwrap()).filter(|r| keep(r)).collect();
+            let run: Vec<Value> = run.iter().filter(|r| keep(r)).cloned().collect();
             for (c, d) in compare_by_request(&expected, &run, 1e-9) {
                 v.push(Violation { class: format!("isolation-{}", c), detail: d });
             }
